@@ -65,4 +65,139 @@ theorem ne_of_under_toPath {b s k : String} (hb : b ≠ "") (h : Under (toPath b
   simp only [toPath, hb, if_false, String.toList_append, List.append_assoc] at e
   exact ne_of_toList_append_cons (c := '.') (t := k.toList ++ r) (by simpa using e)
 
+/-! ## blocks with pairwise disjoint path sets -/
+
+theorem sorted_pairwise_ne : ∀ {kvs : List (String × Node)}, AMap.Sorted kvs → kvs.Pairwise (· ≠ ·)
+  | [], _ => List.Pairwise.nil
+  | (k, v) :: m, hs => by
+    refine List.Pairwise.cons ?_ (sorted_pairwise_ne hs.tail)
+    intro b hb e
+    have := hs.head_lt b hb
+    rw [← e] at this
+    exact String.lt_irrefl _ this
+
+theorem blocks_pairwise {kvs : List (String × Node)} (hg : Good (.cont kvs)) (p q : String)
+    (f : String × Node → List Mod)
+    (hf : ∀ e ∈ kvs, ∀ m ∈ f e, Under (toPath p e.1) m.path) :
+    kvs.Pairwise (fun a b =>
+      (f a).filter (fun m => m.path = q) = [] ∨ (f b).filter (fun m => m.path = q) = []) :=
+  (sorted_pairwise_ne hg.1.sorted).imp_of_mem
+    (fun ha hb hne => blocks_disjoint hg p q f hf _ ha _ hb hne)
+
+/-- of blocks of which, pairwise, at most one passes the filter, at most one contributes -/
+theorem filter_flatMap_pairwise {α : Type} (f : α → List Mod) (pr : Mod → Bool) : ∀ (xs : List α),
+    xs.Pairwise (fun a b => (f a).filter pr = [] ∨ (f b).filter pr = []) →
+    (xs.flatMap f).filter pr = [] ∨ ∃ a ∈ xs, (xs.flatMap f).filter pr = (f a).filter pr
+  | [], _ => Or.inl rfl
+  | a :: xs, h => by
+    rw [List.pairwise_cons] at h
+    simp only [List.flatMap_cons, List.filter_append]
+    by_cases ha : (f a).filter pr = []
+    · rw [ha, List.nil_append]
+      rcases filter_flatMap_pairwise f pr xs h.2 with h0 | ⟨b, hb, e⟩
+      · exact Or.inl h0
+      · exact Or.inr ⟨b, List.mem_cons_of_mem _ hb, e⟩
+    · have : (xs.flatMap f).filter pr = [] := by
+        apply List.filter_eq_nil_iff.mpr
+        intro m hm
+        obtain ⟨b, hb, hmb⟩ := List.mem_flatMap.mp hm
+        rcases h.1 b hb with h1 | h1
+        · exact absurd h1 ha
+        · exact List.filter_eq_nil_iff.mp h1 m hmb
+      rw [this, List.append_nil]
+      exact Or.inr ⟨a, List.mem_cons_self .., rfl⟩
+
+theorem filter_disj {A B : List Mod} (h : ∀ a ∈ A, ∀ b ∈ B, a.path ≠ b.path) (q : String) :
+    A.filter (fun m => m.path = q) = [] ∨ B.filter (fun m => m.path = q) = [] := by
+  by_cases hA : A.filter (fun m => m.path = q) = []
+  · exact Or.inl hA
+  · refine Or.inr (List.filter_eq_nil_iff.mpr ?_)
+    intro b hb hbq
+    obtain ⟨a, ha⟩ := List.exists_mem_of_ne_nil _ hA
+    have ha2 := List.mem_filter.mp ha
+    have e1 : a.path = q := by simpa using ha2.2
+    have e2 : b.path = q := by simpa using hbq
+    exact h a ha2.1 b hb (e1.trans e2.symm)
+
+/-! ## the shape of the sub-sequence of one path -/
+
+/-- nothing, one modification, or the Delete of `q` followed by an Add at `q` -/
+def TieList (q : String) (fs : List Mod) : Prop :=
+  fs = [] ∨ (∃ m, fs = [m]) ∨ ∃ v, fs = [Mod.mkDel q, Mod.mkAdd q v]
+
+def TieShape (ms : List Mod) : Prop := ∀ q, TieList q (ms.filter (fun m => m.path = q))
+
+/-- at most one modification per path -/
+def Uniq (ms : List Mod) : Prop := ∀ q, (ms.filter (fun m => m.path = q)).length ≤ 1
+
+theorem TieList.of_length_le {q : String} : ∀ {fs : List Mod}, fs.length ≤ 1 → TieList q fs
+  | [], _ => Or.inl rfl
+  | [m], _ => Or.inr (Or.inl ⟨m, rfl⟩)
+  | _ :: _ :: _, h => by simp at h
+
+theorem Uniq.tieShape {ms : List Mod} (h : Uniq ms) : TieShape ms := fun q => .of_length_le (h q)
+
+theorem Uniq.of_length_le {ms : List Mod} (h : ms.length ≤ 1) : Uniq ms :=
+  fun _ => Nat.le_trans (List.length_filter_le _ _) h
+
+theorem Uniq.flatMap {α : Type} {f : α → List Mod} {xs : List α}
+    (hp : ∀ q, xs.Pairwise (fun a b =>
+      (f a).filter (fun m => m.path = q) = [] ∨ (f b).filter (fun m => m.path = q) = []))
+    (hu : ∀ a ∈ xs, Uniq (f a)) : Uniq (xs.flatMap f) := by
+  intro q
+  rcases filter_flatMap_pairwise f _ xs (hp q) with h | ⟨a, ha, e⟩
+  · rw [h]; exact Nat.zero_le _
+  · rw [e]; exact hu a ha q
+
+theorem TieShape.flatMap {α : Type} {f : α → List Mod} {xs : List α}
+    (hp : ∀ q, xs.Pairwise (fun a b =>
+      (f a).filter (fun m => m.path = q) = [] ∨ (f b).filter (fun m => m.path = q) = []))
+    (hu : ∀ a ∈ xs, TieShape (f a)) : TieShape (xs.flatMap f) := by
+  intro q
+  rcases filter_flatMap_pairwise f _ xs (hp q) with h | ⟨a, ha, e⟩
+  · rw [h]; exact Or.inl rfl
+  · rw [e]; exact hu a ha q
+
+theorem Uniq.append {A B : List Mod} (hA : Uniq A) (hB : Uniq B)
+    (hd : ∀ q, A.filter (fun m => m.path = q) = [] ∨ B.filter (fun m => m.path = q) = []) :
+    Uniq (A ++ B) := by
+  intro q
+  rw [List.filter_append]
+  rcases hd q with h | h
+  · rw [h, List.nil_append]; exact hB q
+  · rw [h, List.append_nil]; exact hA q
+
+theorem TieShape.append {A B : List Mod} (hA : TieShape A) (hB : TieShape B)
+    (hd : ∀ q, A.filter (fun m => m.path = q) = [] ∨ B.filter (fun m => m.path = q) = []) :
+    TieShape (A ++ B) := by
+  intro q
+  show TieList q _
+  rw [List.filter_append]
+  rcases hd q with h | h
+  · rw [h, List.nil_append]; exact hB q
+  · rw [h, List.append_nil]; exact hA q
+
+/-- a Delete in front of Adds strictly below it -/
+theorem TieShape.del_cons {b : String} {F : List Mod} (hu : Uniq F) (hne : ∀ m ∈ F, m.path ≠ b) :
+    TieShape (Mod.mkDel b :: F) := by
+  intro q
+  show TieList q _
+  by_cases hq : b = q
+  · subst hq
+    have h0 : F.filter (fun m => m.path = b) = [] :=
+      List.filter_eq_nil_iff.mpr (fun m hm => by simpa using hne m hm)
+    have : (Mod.mkDel b :: F).filter (fun m => m.path = b) = [Mod.mkDel b] := by
+      simp [Mod.mkDel, h0]
+    rw [this]; exact Or.inr (Or.inl ⟨_, rfl⟩)
+  · have : (Mod.mkDel b :: F).filter (fun m => m.path = q) = F.filter (fun m => m.path = q) := by
+      simp [Mod.mkDel, hq]
+    rw [this]; exact .of_length_le (hu q)
+
+/-- the tie: a Delete and the Add of the leaf that replaces the position -/
+theorem TieShape.del_add (b : String) (v : Scalar) : TieShape [Mod.mkDel b, Mod.mkAdd b v] := by
+  intro q
+  by_cases hq : b = q
+  · subst hq; exact Or.inr (Or.inr ⟨v, by simp [Mod.mkDel, Mod.mkAdd]⟩)
+  · exact Or.inl (by simp [Mod.mkDel, Mod.mkAdd, hq])
+
 end Ytk
